@@ -118,8 +118,10 @@ def mcmc_twin(ctx, rng, pb, jb, jt, data2, prior2, p2, d2, f_data, n_ep, wdesc, 
         jb.setup_mcmc(pb.data, post_b)
     with prior2.model:
         jt.setup_mcmc(data2, post_t)
-    fb, vb = mcmc.compile_model(pb.prior.model)
-    ft, vt = mcmc.compile_model(prior2.model)
+    fb, vb = mcmc.compile_model(pb.prior.model, with_logp=True)
+    ft, vt = mcmc.compile_model(prior2.model, with_logp=True)
+    dlogp = []
+    mag = 0.0
     lin = pb.lin
     du, du2 = pb.du, d2["unit"]
     for _ in range(3):
@@ -137,8 +139,10 @@ def mcmc_twin(ctx, rng, pb, jb, jt, data2, prior2, p2, d2, f_data, n_ep, wdesc, 
         ctx.evaluations += 1
         ctx.count("mcmc_twin_points")
         ctx.distinct.add(repr(("mcmc-twin",) + cls))
-        rv_b, ll_b_ = ob
-        rv_t, ll_t_ = ot
+        rv_b, ll_b_, lp_b_ = ob
+        rv_t, ll_t_, lp_t_ = ot
+        dlogp.append(float(lp_t_) - float(lp_b_))
+        mag = max(mag, abs(float(lp_t_)), abs(float(lp_b_)))
         scale = np.max(np.abs(rv_b)) + abs(x[0]) + 1e-9
         if np.max(np.abs(rv_t / f_data - rv_b)) > 1e-6 * scale:
             ctx.violation("mcmc-model-not-unit-invariant", "model_rv of the twin, converted back, differs from the base model by %.3g "
@@ -150,6 +154,14 @@ def mcmc_twin(ctx, rng, pb, jb, jt, data2, prior2, p2, d2, f_data, n_ep, wdesc, 
                           "re-expressing %s (data %s with errors in %s)" % (float(ll_t_), want, wdesc["transformed"], du,
                                                                             [s_.get("err_unit") for s_ in pb.dspec["surveys"]]), wdesc)
             return
+    # the two log-densities describe one posterior in two unit systems: they differ by a constant (Jacobians of the unit
+    # changes), whatever the point
+    if len(dlogp) >= 2 and np.all(np.isfinite(dlogp)):
+        ctx.evaluations += 1
+        # (the data term alone can be 1e5-1e9: the difference of two such sums resolves 1e-9 of their size at best)
+        if np.ptp(dlogp) > 1e-6 + 1e-9 * mag:
+            ctx.violation("mcmc-model-not-unit-invariant", "log-density of the MCMC model, twin minus base, is not constant over the "
+                          "points (%s) after re-expressing %s" % (["%.6f" % x for x in dlogp], wdesc["transformed"]), wdesc)
 
 
 def run(ctx):
